@@ -279,8 +279,10 @@ def getFromChildB (b : β) (ck k : Bytes) : Out :=
 def getChildStorageTS (s : TS β) (ck k : Bytes) : Out :=
   match s.txs with
   | d :: _ =>
-    let r := d.getFromChild ck k
-    if r.1.isSome || r.2 then .val r.1 else getFromChildB B s.base ck k
+    if KSet.has ck d.c.deletes then .val none
+    else
+      let r := d.getFromChild ck k
+      if r.1.isSome || r.2 then .val r.1 else getFromChildB B s.base ck k
   | [] => getFromChildB B s.base ck k
 
 def deleteChildTS (s : TS β) (ck : Bytes) : TS β × Out :=
@@ -454,9 +456,9 @@ def snapReads (x y : UInt8) (sep : Bool) : List Op :=
   let mainKeys : List Bytes := [[], [x], [x, y], [y], [y, x], px, py]
   let kids : List Bytes := if sep then [[0x4b, x], [0x4b, x, y], [0x4b, y]] else [[x], [x, y], [y]]
   let inKeys : List Bytes := [[], [x], [x, y], [y]]
-  mainKeys.flatMap (fun k => [Op.get k, Op.next k]) ++ [Op.ents] ++
+  mainKeys.flatMap (fun k => (if k.isEmpty then [] else [Op.get k]) ++ [Op.next k]) ++ [Op.ents] ++
     kids.flatMap (fun c => [Op.ckeys c []] ++
-      inKeys.flatMap (fun k => [Op.cget c k, Op.cnext c k]))
+      inKeys.flatMap (fun k => (if k.isEmpty then [] else [Op.cget c k]) ++ [Op.cnext c k]))
 
 /-- read-only operations -/
 def readOp (s : TS β) : Op → Out
